@@ -216,7 +216,9 @@ class LeanDriver:
         p = subprocess.run([str(self.exe)], input=data, capture_output=True, text=True, timeout=3000)
         if p.returncode != 0:
             raise Infra(f"driver failed: {p.stderr[:500]}")
-        lines = p.stdout.splitlines()
+        lines = p.stdout.split("\n")  # not splitlines(): answers may contain U+0085 / U+2028
+        if lines and lines[-1] == "":
+            lines.pop()
         if len(lines) != len(reqs):
             raise Infra(f"driver answered {len(lines)} lines for {len(reqs)} requests")
         return [json.loads(l) for l in lines]
